@@ -290,7 +290,7 @@ def linuxApplyBody : Sess :=
      linuxCmd .change (.lit "/etc/network/packet-filter.new") ["_"] ;;
      linuxCmd .change (.lit "mv -f /etc/network/packet-filter.new /etc/network/packet-filter") ["_"]) .skip ;;
   .ite .planNonEmpty "len($v.routes) != 0"
-    (.call "writeStartupRouting" ["_", "_"] linuxWriteStartupRoutingBody) .skip ;;
+    (.call "writeStartupRouting" ["_", "/etc/network/routing"] linuxWriteStartupRoutingBody) .skip ;;
   .ret .nil ["nil"]
 
 def linuxLoginEnableBody : Sess :=
